@@ -189,6 +189,8 @@ def Layout.liveRows (lay : Layout) : List Row := (lay.flatten.filter (·.live)).
 def Layout.Stores (lay : Layout) (v : ToastValue) : Prop :=
   (lay.liveRows.filter fun r => r.id == v.id).Perm (chunkRows v)
 
+instance (lay : Layout) (v : ToastValue) : Decidable (lay.Stores v) := by unfold Layout.Stores; infer_instance
+
 /-! ### per-table statistics -/
 
 structure ValueStat where
